@@ -18,7 +18,7 @@ SOLVERS = {
 FAST_FIRST = "z3-4.8.12"
 FAST_TIMEOUT = 2
 
-CACHE_DIR = os.path.join(os.path.dirname(os.path.dirname(os.path.abspath(__file__))), ".cache")
+CACHE_DIR = os.environ.get("GOVC_CACHE_DIR") or os.path.join(os.path.dirname(os.path.dirname(os.path.abspath(__file__))), ".cache")
 _cache_lock = threading.Lock()
 _cache = None
 USE_CACHE = True
@@ -134,7 +134,7 @@ def run_portfolio(text, timeout=20, solvers=None, want_model=True, need=1, use_c
     for s in solvers:
         try:
             procs[s] = subprocess.Popen(SOLVERS[s](path, timeout), stdout=subprocess.PIPE, stderr=subprocess.STDOUT,
-                                        preexec_fn=os.setsid)
+                                        start_new_session=True)
         except FileNotFoundError:
             pass
     per = {}
